@@ -42,7 +42,7 @@ from io import StringIO
 import six
 from six import integer_types, text_type
 
-from decimal import Decimal, InvalidOperation
+from decimal import Context, Decimal, InvalidOperation, localcontext
 
 from warnings import warn
 
@@ -50,6 +50,10 @@ from .. import relativedelta
 from .. import tz
 
 __all__ = ["parse", "parserinfo", "ParserError"]
+
+# The decimal context numeric tokens are evaluated under (the library
+# default), whatever context the calling thread has set for itself
+_DECIMAL_CONTEXT = Context(prec=28)
 
 
 # TODO: pandas.core.tools.datetimes imports this explicitly.  Might be worth
@@ -637,7 +641,11 @@ class parser(object):
             default = datetime.datetime.now().replace(hour=0, minute=0,
                                                       second=0, microsecond=0)
 
-        res, skipped_tokens = self._parse(timestr, **kwargs)
+        # Numbers in the text are handled as Decimal: do that arithmetic
+        # under a fixed context, so that the outcome does not depend on the
+        # decimal context the calling thread happens to have set up
+        with localcontext(_DECIMAL_CONTEXT):
+            res, skipped_tokens = self._parse(timestr, **kwargs)
 
         if res is None:
             raise ParserError("Unknown string format: %s", timestr)
